@@ -583,11 +583,9 @@ func (h *httpServerHandler) handleGet(ctx context.Context, w http.ResponseWriter
 		return
 	}
 
-	// Set SSE response headers
+	// Set SSE response headers (sent below, once the connection is registered)
 	sseutil.SetStandardHeaders(w)
 	w.Header().Set(httputil.SessionIDHeader, session.GetID())
-	w.WriteHeader(http.StatusOK)
-	flusher.Flush()
 
 	// Create context, for canceling connection
 	connCtx, cancelConn := context.WithCancel(ctx)
@@ -611,8 +609,15 @@ func (h *httpServerHandler) handleGet(ctx context.Context, w http.ResponseWriter
 		lastEventID:  lastEventID,
 		sseResponder: newSSEResponder(),
 	}
+	// Register the connection before the client can see the response headers, so that a
+	// notification sent as soon as the stream is visibly open is routed to this stream.
+	// Writers wait on writeLock until the headers are out.
+	conn.writeLock.Lock()
 	h.getSSEConnections[session.GetID()] = conn
 	h.getSSEConnectionsLock.Unlock()
+	w.WriteHeader(http.StatusOK)
+	flusher.Flush()
+	conn.writeLock.Unlock()
 
 	// Record connection information
 	h.logger.Infof("Established GET SSE connection, session ID: %s", session.GetID())
